@@ -7,12 +7,50 @@ import (
 	"testing/synctest"
 	"time"
 
+	"github.com/cossacklabs/themis/gothemis/cell"
+	"github.com/cossacklabs/themis/gothemis/keys"
+	"github.com/cossacklabs/themis/gothemis/message"
 	log "github.com/sirupsen/logrus"
 
 	"verif/sim/kernel"
 )
 
+// Warm runs throw-away simulated runs through every keystore-side world once,
+// so that all lazy one-time initialisation of the process (crypto self-tests,
+// id generators, pools) has happened before the first seeded run.
+func Warm(t *testing.T) {
+	WarmCrypto()
+	for _, format := range []int64{1, 2} {
+		plan := &kernel.Plan{Prop: "C06", Seed: 12345, Swarm: map[string]int64{"format": format, "cache": 0}}
+		id := 0
+		plan.Ops = genHistory(kernel.NewRNG(99, 1), int(format), 12, &id)
+		runSession(t, "warmup", plan, false)
+	}
+}
+
+// WarmCrypto exercises every crypto primitive the stand-in uses once.
+func WarmCrypto() {
+	kp, err := keys.New(keys.TypeEC)
+	if err != nil {
+		panic(err)
+	}
+	kp2, _ := keys.New(keys.TypeEC)
+	wrapped, err := message.New(kp.Private, kp2.Public).Wrap([]byte("warm-up"))
+	if err != nil {
+		panic(err)
+	}
+	if _, err := message.New(kp2.Private, kp.Public).Unwrap(wrapped); err != nil {
+		panic(err)
+	}
+	sc, _ := cell.SealWithKey(&keys.SymmetricKey{Value: []byte("0123456789abcdef0123456789abcdef")})
+	enc, _ := sc.Encrypt([]byte("warm-up"), []byte("ctx"))
+	if _, err := sc.Decrypt(enc, []byte("ctx")); err != nil {
+		panic(err)
+	}
+}
+
 func init() {
+	kernel.Warmup = Warm
 	// Acra logs through the global logrus logger; the keystore worlds do not
 	// examine log output, so it is silenced (PanicLevel keeps Fatal/Panic).
 	log.SetLevel(log.PanicLevel)
